@@ -34,6 +34,18 @@ check("C05",
       "validated against recorded lifecycle-heavy histories on the three backends: listing, lookup, metadata, events and exception classes after every call.",
       "Trusted: as C02. Name of a bucket created without one is free; duplicate creation and event calls through stale handles are not generated.",
       "TLA+ spec + TLC model checking + TLC trace validation", "DESIGN.md §6 C05")
+check("C06",
+      "The commit policy's design layer (spec/AwDurable.tla: counter/age automaton, one action per operation, crash action) is model-checked by TLC against the "
+      "property layer (BufferedBounded, BucketOpsDurable, DurableMonotone, CounterExact) with negative controls (the pinned tree's knobs are refuted); histories "
+      "simulated by TLC from that model plus random ones run on sqlite and peewee with a crash at every SQL statement (database files as on disk at that instant, "
+      "SIGKILL re-runs at sampled statements, one exit without shutdown); TLC (spec/AwDurableTrace.tla) decides whether every surviving file is the effect of an allowed prefix.",
+      "Trusted: TLC; crash = process death (no power loss); file copy at a statement boundary == what a reopen after death at that boundary finds (cross-checked by real SIGKILLs); MaxBuffered = 64.",
+      "TLA+ spec + TLC model checking + crash-point enumeration judged by TLC trace validation", "DESIGN.md §6 C06", level="model_checking")
+check("C18",
+      "Same model, generator and judge as C06 with a virtual clock: the design layer's AgeBound is model-checked (and refuted for the reversed age test); histories with clock ticks "
+      "{1,9,11,15,16,30,3600 s} between writes are run on sqlite, and at every crash point the judge demands that an event write issued >= 15 s after the last observed flush is durable once it has returned.",
+      "Trusted: as C06; the virtual clock shifts datetime.now/time.time/time.monotonic; AgeMust = 15 s is the property layer's reading of 'more than about ten seconds' (10..15 s is left free).",
+      "TLA+ spec + TLC model checking + virtual-clock crash-point traces judged by TLC", "DESIGN.md §6 C18", level="model_checking")
 
 
 def build():
